@@ -50,7 +50,7 @@ def config_strategy(flavour="mixed"):
             "group": group, "every_n": draw(st.sampled_from([0, 1, 3])) if group else None, "every_ms": draw(st.sampled_from([0, 0, 500])) if group else None,
             "buffer": buf, "max_buffer": maxbuf, "retry_init": init, "retry_max": draw(st.sampled_from([init, round(init * 1.3, 4), round(init * 2.0, 4), 0.5 if init <= 0.5 else 1.0, 30.0])),
             "max_attempts": draw(st.sampled_from([0, 0, 1, 2, 3, 5])), "reset": draw(st.sampled_from([None, None, -2, -1])),
-            "procs": draw(st.lists(st.sampled_from(["sync_ok"] * 6 + ["async", "async", "async", "sync_raise", "sync_raise_cancelled", "stop_inside", "commit_inside"]), max_size=14)),
+            "procs": draw(st.lists(st.sampled_from(["sync_ok"] * 6 + ["async", "async", "async", "async_chained", "sync_raise", "sync_raise_cancelled", "stop_inside", "commit_inside"]), max_size=14)),
         }
 
     return cfg()
@@ -192,12 +192,18 @@ class CONSEngine(Engine):
             inv.done_evseq = self.evseq
             self.labels.add("processor-failed-with-CancelledError")
             raise defer.CancelledError("processor failure #%d (the application's own cancellation)" % inv.no)
-        if mode == "async":
+        if mode in ("async", "async_chained"):
             def cancelled(d):
                 inv.state = "cancelled"
                 inv.done_evseq = self.evseq
 
             inv.d = defer.Deferred(cancelled)
+            if mode == "async_chained":
+                # an already-fired Deferred whose callback chain is paused on pending inner work (succeed(x).addCallback(store)):
+                # its result is just as pending as that of a plain unfired Deferred
+                self.labels.add("processor-returned-fired-but-paused-deferred")
+                inner = inv.d
+                return defer.succeed(None).addCallback(lambda _: inner)
             return inv.d
         if mode == "stop_inside" and run is not None and run.get("stopped_evseq") is None and not self._in_stop:
             self._record_stop(run, consumer.stop(), inside=True)
@@ -286,6 +292,19 @@ class CONSEngine(Engine):
         if kind == "shutdownmid":
             return [start, ["run", draw(st.integers(5, 40))], app, ["wait", draw(st.integers(0, 2))], ["run", draw(st.integers(0, 12))],
                     ["err", b, "offset_commit", draw(st.sampled_from(COMMIT_CODES)), draw(st.integers(0, 3))], ["shutdown"], ["run", 6], ["proc", 0, draw(st.booleans())], ["run", 30], ["timer"], ["run", 20]]
+        if kind == "shutdownmultiblock":
+            # shutdown() while the first block of a reply that holds several blocks is being processed asynchronously
+            return [["procmode", "async"], ["procmode", "sync_ok", 1], start, ["run", 40], app, ["shutdown"], ["proc", 0, True], ["run", draw(st.integers(0, 6))], ["proc", 0, True], ["run", 30], ["timer"], ["run", 20]]
+        if kind == "failoor":
+            # consecutive fetch failures with an out-of-range answer among them (it counts against the attempt limit like any other)
+            k = draw(st.integers(0, 3))
+            seq = [start, ["run", 40], ["wait", 2], ["run", 20]]
+            if k:
+                seq += [["err", b, "fetch", draw(st.sampled_from(FETCH_CODES)), k]]
+            seq += [app, app, ["truncate", draw(st.integers(1, 6))]]
+            for _ in range(k + 2):
+                seq += [["wait", draw(st.sampled_from([2, 3, 4]))], ["run", 12]]
+            return seq + [["timer"], ["run", 12], ["timer"], ["run", 12]]
         if kind == "oor":
             return [start, ["run", 40], app, app, ["truncate", draw(st.integers(1, 6))], ["wait", 2], ["run", 40]]
         if kind == "bigmsg":
@@ -469,6 +488,9 @@ class CONSEngine(Engine):
                 inv.state = "failed"
                 inv.d.errback(ValueError("async processor failure #%d" % inv.no))
             self._after_event()
+        elif op == "procmode":
+            # scripted processor behaviour for the next invocation(s) (position step[2], default front)
+            self.proc_stream.insert(step[2] if len(step) > 2 else 0, step[1])
         elif op == "append":
             self._append({"wrapper": bool(step[1]), "gap": 0, "sizes": [step[3]] * (step[2] if step[1] else 1), "inner_gaps": None})
             if step[3] > self.config["buffer"]:
@@ -1139,16 +1161,19 @@ class CONSEngine(Engine):
                     break
             if not gapless:
                 continue
-            if code == 1 and rec["api"] == "fetch":
-                continue  # out of range: governed by the reset policy
             run = rec["run"]
             if run is None or run.get("stopped_evseq") is not None or run.get("shutdown_watch") is not None or (run.get("watch") is not None and run["watch"].state != "pending"):
                 continue
             if rep["deliv_time"] > rec["time"] + self.timeout - 1e-9:
                 rec["timely"] = False
                 continue
-            if cfg["max_attempts"] and k > cfg["max_attempts"]:
-                self.note("C14.attempt-limit", "C14.attempt-limit-exceeded", "%d consecutive failed requests although request_retry_max_attempts=%d; the start() Deferred is still pending" % (k, cfg["max_attempts"]))
+            # (an out-of-range answer is a failed attempt like any other as far as the limit goes; only what follows it differs)
+            if cfg["max_attempts"] and k >= cfg["max_attempts"]:
+                # (reaching this point means: the run is still going and the consumer has issued its next request)
+                self.nt.add("attempt-limit-reached")
+                self.note("C14.attempt-limit", "C14.attempt-limit-exceeded", "%d consecutive failed requests (the last: %s error %d) with request_retry_max_attempts=%d, yet the start() Deferred is still pending and the consumer issued another request" % (k, rec["api"], code, cfg["max_attempts"]))
+            if code == 1 and rec["api"] == "fetch":
+                continue  # out of range: what follows is governed by the reset policy
             want = min(cfg["retry_init"] * (factor ** (k - 1)), cfg["retry_max"])
             d = later[0]["time"] - rep["deliv_time"]
             self.nt.add("retry-delay-measured")
